@@ -20,6 +20,7 @@ from .. import core
 
 NABES8 = ("remark", "rendo", "enmark", "endo", "redo", "afdo", "exdo", "rexdo")
 BOXER = "bxr"
+NABE_ORD = {n: j for j, n in enumerate(("predo",) + NABES8)}
 
 
 # --------------------------------------------------------------------------
@@ -84,7 +85,7 @@ def relation(boxes, active, dest):
 # --------------------------------------------------------------------------
 # options (5th component of a case; a 4-tuple case means "no options")
 #
-# opts = (style, mode, raises, enders, rerun, neighbour)
+# opts = (style, mode, raises, enders, rerun, neighbour, truth, verbs)      (shorter tuples from older replays: zeros)
 #   style  : bit set choosing HOW the same boxwork is declared (does not change what it is):
 #            1 over given as Box object   2 over="" (same level) when the previous box has the same over
 #            4 goact dest given as Box object when already declared   8 dest "next"/None when dest is the next box
@@ -96,15 +97,32 @@ def relation(boxes, active, dest):
 #   enders : list of (box, nabe, idx): that act sets the boxer's end bag to True whenever it runs (like EndAct)
 #   rerun  : 1 = after the run, reset the end bag and run the SAME Boxer object a second time (modes 0, 1)
 #   neighbour : 1 = a second Boxer "bxr2" sharing the Hold is driven interleaved and ends early (modes 0, 1)
-NOOPTS = (0, 0, [], [], 0, 0)
+#   truth  : 0 = preacts / go-needs answer with real bools through harness callables.  n > 0 = the SAME truth bit is
+#            delivered as a value drawn from the whole truthiness space (False 0 0.0 None '' [] {} () vs True 1 2.5 'x'
+#            [0] {0: 0} (None,)) and through every way a preact / need can be given, chosen per act from n:
+#            preact: callable deed | Need instance as deed | on(expr=…) | ActBase subclass | statement-string deed
+#            (returns None: only for preacts that are never satisfied);  go-need: Need subclass | expr string compiled by
+#            go() | on(expr=…).  expr strings read the hold: "H.c25pre.value(i, k)".  The library judges by truthiness.
+#   verbs  : 0 = every act is declared with do(deed, nabe=) (or at()+do with style bit 16).  n > 0 = per act, chosen from n:
+#            the VERB (do(callable) | be(lhs, rhs=callable) | be(lhs, rhs="expr over the hold")) and HOW the context is
+#            given (inside an at(nabe) section, relying on the context left by the previous act | nabe= per call | nothing
+#            at all for endo in a fresh box).  A `be` act logs through the hold: its rhs is evaluated, then assigned.
+#            Preacts given as plain callables may also be `be` acts (Beact returns the assigned value).
+#            When n % 4 == 3 each box additionally gets LIBRARY acts in place of recording ones: one enmark act is the
+#            LapseMark that on("lapse …") appends, one remark act the RelapseMark of on("relapse …"), one other act a
+#            registered Count (do("count")); they log through the hold too (their mark / count bag is a logging Bag).
+NOOPTS = (0, 0, [], [], 0, 0, 0, 0)
+FALSY = (False, 0, 0.0, None, "", [], {}, ())
+TRUTHY = (True, 1, 2.5, "x", [0], {0: 0}, (None,), -1)
 EXC_NAMES = ("ValueError", "KeyError", "TypeError", "OSError", "UnicodeError", "OverflowError", "RuntimeError",
              "HierError", "KeyboardInterrupt", "SystemExit", "CancelledError", "GeneratorExit", "MemoryError")
 
 
 def parts(case):
     if len(case) == 4:
-        return case + (NOOPTS,)
-    return case
+        return tuple(case) + (NOOPTS,)
+    o = tuple(case[4])
+    return tuple(case[:4]) + (o + NOOPTS[len(o):],)
 
 
 def _exc(name):
@@ -124,7 +142,7 @@ def _exc(name):
 def run_impl(case):
     from hio.base.hier import boxing, acting, needing, holding, bagging
     from hio.base import doing
-    boxes, first, ticks, endat, (style, mode, raises, enders, rerun, neighbour) = parts(case)
+    boxes, first, ticks, endat, (style, mode, raises, enders, rerun, neighbour, truth, verbs) = parts(case)
     acting.ActBase._clearall()
     st = dict(t=0, log=[], boxer=None)
     raising = {}
@@ -148,14 +166,108 @@ def run_impl(case):
 
     def rec(i, nabe, k):
         def deed(**iops):
-            note(i, nabe, k)
+            return rec_eval(i, nabe, k)
         return deed
 
+    def rec_eval(i, nabe, k):     # what "H.c25rec.value(i, 'nabe', k)" calls
+        note(i, nabe, k)
+        return (i, nabe, k)
+
+    def verb_of(i, nabe, k):
+        """(verb, how) for act k of box i in nabe: verb 0 do, 1 be(rhs=callable), 2 be(rhs=expr str); how 0 at()-section, 1 nabe= per call"""
+        if not verbs:
+            return 0, (0 if style & 16 else 1)
+        h = verbs * 13 + i * 7 + NABE_ORD.get(nabe, 9) * 5 + k * 3
+        return h % 3, (h // 3) % 2
+
+    def lib_acts(i, counts):
+        """{(nabe, k): kind} the acts of box i that are library acts (marks appended by on(), registered Count)"""
+        if not verbs or verbs % 4 != 3:
+            return {}
+        c = dict(zip(NABES8, counts))
+        out = {}
+        if c["enmark"]:
+            out[("enmark", (verbs + i) % c["enmark"])] = "lapse"
+        if c["remark"]:
+            out[("remark", (verbs + 2 * i) % c["remark"])] = "relapse"
+        others = [n for n in ("rendo", "endo", "redo", "afdo", "exdo", "rexdo") if c[n]]
+        if others:
+            nb = others[(verbs // 4 + i) % len(others)]
+            out[(nb, (verbs + i) % c[nb])] = "count"
+        return out
+
+    class LogBag(bagging.Bag):
+        """a Bag that reports every assignment of .value as the act (box, nabe, k) it stands for"""
+        __hash__ = bagging.Bag.__hash__
+
+        def __setattr__(self, name, value):
+            super().__setattr__(name, value)
+            if name == "value" and getattr(self, "_c25", None):
+                note(*self._c25)
+
+    for i, (parent, counts, pres, gos) in enumerate(boxes):
+        for (nabe, k), kind in lib_acts(i, counts).items():
+            bag = LogBag()
+            object.__setattr__(bag, "_c25", (i, nabe, k))
+            hold[("", "boxer", BOXER, "box", f"b{i}", kind)] = bag
+
+    def val(bit, i, k, kind):
+        """the truth bit as a value: a real bool, or (truth > 0) some member of the truthy / falsy pool"""
+        if not truth:
+            return bool(bit)
+        pool = TRUTHY if bit else FALSY
+        v = pool[(truth * 7 + i * 5 + k * 3 + st["t"] * 11 + kind) % len(pool)]
+        return type(v)(v) if isinstance(v, (list, dict)) else v
+
+    masks = {}
+
+    def pre_eval(i, k):          # what "H.c25pre.value(i, k)" calls
+        note(i, "predo", k)
+        return val((masks[("p", i, k)] >> st["t"]) & 1, i, k, 0)
+
+    def go_eval(i, j):           # what "H.c25go.value(i, j)" calls
+        note(i, "godo", j)
+        return val((masks[("g", i, j)] >> st["t"]) & 1, i, j, 1)
+
     def pre(i, k, mask):
+        masks[("p", i, k)] = mask
         def deed(**iops):
-            note(i, "predo", k)
-            return bool((mask >> st["t"]) & 1)
+            return pre_eval(i, k)
         return deed
+
+    def pre_way(i, k, mask):
+        if not truth:
+            return 0
+        w = (truth + i * 3 + k) % 5
+        if w == 4 and mask & ((1 << (ticks + 2)) - 1):
+            w = 0                # a statement deed returns None: only usable for a preact that is never satisfied
+        return w
+
+    def pre_act(i, k, mask, on=None):
+        """the preact in the form chosen for it: something do(deed, nabe='predo') / Box.preacts accepts"""
+        w = pre_way(i, k, mask)
+        d = pre(i, k, mask)
+        if w == 1:
+            return needing.Need(expr=f"H.c25pre.value({i}, {k})", hold=hold)
+        if w == 2:
+            return on(expr=f"H.c25pre.value({i}, {k})") if on else needing.Need(expr=f"H.c25pre.value({i}, {k})", hold=hold)
+        if w == 3:
+            class PreAct(acting.ActBase):
+                def act(self, **iops):
+                    return pre_eval(i, k)
+            return PreAct
+        if w == 4:
+            return f"H.c25pre.value({i}, {k})"       # statement string: exec() -> None
+        return d
+
+    def go_need(i, j, mask, on=None):
+        masks[("g", i, j)] = mask
+        w = (truth + i + j * 2) % 3 if truth else 0
+        if w == 1:
+            return f"H.c25go.value({i}, {j})" if on else needing.Need(expr=f"H.c25go.value({i}, {j})", hold=hold)
+        if w == 2:
+            return on(expr=f"H.c25go.value({i}, {j})") if on else needing.Need(expr=f"H.c25go.value({i}, {j})", hold=hold)
+        return RecNeed(i, j, mask, hold=hold)
 
     class RecNeed(needing.Need):
         def __init__(self, i, j, mask, **kwa):
@@ -163,8 +275,7 @@ def run_impl(case):
             self._i, self._j, self._mask = i, j, mask
 
         def __call__(self, **iops):
-            note(self._i, "godo", self._j)
-            return bool((self._mask >> st["t"]) & 1)
+            return go_eval(self._i, self._j)
 
     def fun(H, bx, go, do, on, at, be):
         made = {}
@@ -178,9 +289,10 @@ def run_impl(case):
             else:
                 over = f"b{parent}"
             made[i] = bx(name=f"b{i}", over=over, first=(i == first and (mode == 2 or not (style & 64))))
-            todo = [("predo", pre(i, k, mask)) for k, mask in enumerate(pres)]
+            todo = [("predo", pre_act(i, k, mask, on)) for k, mask in enumerate(pres)]
             for nabe, n in zip(NABES8, counts):
                 todo += [(nabe, rec(i, nabe, k)) for k in range(n)]
+            libs = lib_acts(i, counts)
             if style & 32:                     # interleave nabes round-robin (per-nabe order is kept)
                 by = {}
                 for nabe, d in todo:
@@ -193,7 +305,7 @@ def run_impl(case):
 
             def declare_gos():
                 for j, (dest, mask) in enumerate(gos):
-                    need = RecNeed(i, j, mask, hold=H)
+                    need = go_need(i, j, mask, on)
                     if (style & 8) and dest == i + 1 and dest < len(boxes):
                         go(None if j % 2 else "next", need)
                     elif (style & 4) and dest in made:
@@ -202,12 +314,43 @@ def run_impl(case):
                         go(f"b{dest}", need)
             if style & 32:
                 declare_gos()
+            cur = None                         # bx() resets the context to native
+            counter = {}
             for nabe, d in todo:
-                if style & 16:
-                    at(nabe)
-                    do(d)
+                k = counter.get(nabe, 0)
+                counter[nabe] = k + 1
+                verb, how = verb_of(i, nabe, k)
+                if (nabe, k) in libs:
+                    kind = libs[(nabe, k)]
+                    if kind == "count":
+                        if how == 1:
+                            do("count", nabe=nabe)
+                        else:
+                            at(nabe)
+                            cur = nabe
+                            do("count")
+                    else:
+                        on(f"{kind} >= 0.0")       # appends the (Re)LapseMark to enmarks / remarks whatever the context
+                    continue
+                if not callable(d) or isinstance(d, (type, needing.Need)):
+                    verb = 0                   # Need / ActBase subclass / statement string can only go through do()
+                kw = {}
+                if how == 1:
+                    kw = dict(nabe=nabe)
+                elif not (verbs and cur is None and nabe == "endo" and not (style & 16)):
+                    if cur != nabe or not verbs:
+                        at(nabe)
+                        cur = nabe
+                # else: fresh box, native context: an act declared with nothing lands in endo
+                if verb == 0:
+                    do(d, **kw)
+                elif verb == 1:
+                    be("c25slot.value", d, **kw)
                 else:
-                    do(d, nabe=nabe)
+                    if nabe == "predo":
+                        be("c25slot.value", f"H.c25pre.value({i}, {k})", **kw)
+                    else:
+                        be("c25slot.value", f"H.c25rec.value({i}, '{nabe}', {k})", **kw)
             if not (style & 32):
                 declare_gos()
 
@@ -222,16 +365,39 @@ def run_impl(case):
         for i, (parent, counts, pres, gos) in enumerate(boxes):
             b = made[i]
             for k, mask in enumerate(pres):
-                b.preacts.append(acting.Act(deed=pre(i, k, mask), nabe="predo", hold=hold))
+                d = pre_act(i, k, mask)
+                if isinstance(d, type):
+                    b.preacts.append(d(nabe="predo", hold=hold))
+                else:
+                    b.preacts.append(acting.Act(deed=d, nabe="predo", hold=hold))
             for nabe, n in zip(NABES8, counts):
                 for k in range(n):
-                    getattr(b, boxing.nabeDispatch[nabe]).append(acting.Act(deed=rec(i, nabe, k), nabe=nabe, hold=hold))
+                    verb, _ = verb_of(i, nabe, k)
+                    kind = lib_acts(i, counts).get((nabe, k))
+                    io = dict(_boxer=BOXER, _box=f"b{i}")
+                    if kind == "count":
+                        a = acting.Count(nabe=nabe, iops=io, hold=hold)
+                    elif kind == "lapse":
+                        a = acting.LapseMark(iops=io, hold=hold)
+                    elif kind == "relapse":
+                        a = acting.RelapseMark(iops=io, hold=hold)
+                    elif verb == 0:
+                        a = acting.Act(deed=rec(i, nabe, k), nabe=nabe, hold=hold)
+                    elif verb == 1:
+                        a = acting.Beact(lhs="c25slot.value", rhs=rec(i, nabe, k), nabe=nabe, hold=hold)
+                    else:
+                        a = acting.Beact(lhs=("c25slot", "value"), rhs=f"H.c25rec.value({i}, '{nabe}', {k})", nabe=nabe, hold=hold)
+                    getattr(b, boxing.nabeDispatch[nabe]).append(a)
             for j, (dest, mask) in enumerate(gos):
-                b.goacts.append(acting.Goact(dest=made[dest], need=RecNeed(i, j, mask, hold=hold), hold=hold))
+                b.goacts.append(acting.Goact(dest=made[dest], need=go_need(i, j, mask), hold=hold))
         return made
 
     if endkey not in hold:
         hold[endkey] = bagging.Bag()
+    hold["c25rec"] = bagging.Bag(value=rec_eval)
+    hold["c25slot"] = bagging.Bag()
+    hold["c25pre"] = bagging.Bag(value=pre_eval)
+    hold["c25go"] = bagging.Bag(value=go_eval)
     if mode == 2:
         boxer = boxing.Boxer(name=BOXER, hold=hold, fun=fun)
     else:
@@ -329,7 +495,7 @@ def run_impl(case):
 
 
 def request(case):
-    boxes, first, ticks, endat, (style, mode, raises, enders, rerun, neighbour) = parts(case)
+    boxes, first, ticks, endat, (style, mode, raises, enders, rerun, neighbour, truth, verbs) = parts(case)
     return ("run",
             tuple((p + 1, tuple(c), tuple(pres), tuple((d, m) for d, m in gos)) for p, c, pres, gos in boxes),
             first + 1, ticks, endat + 1,
